@@ -67,6 +67,9 @@ static Verdict oracle_c09(const Plan &p, const RunResult &r) {
         const ExecObs *o = obs_of(r, cv.opi); if (!o || o->real_calls == 0) return bad("call-incomplete", "call #" + std::to_string(cv.opi) + " did not reach the real exec");
         Verdict v = passthrough_oracle(*cv.op, *o, r);
         if (v.violated) return v;
+        // per-thread state of the caller: each thread runs with its own signal mask and must have it at the real exec and afterwards
+        if (o->thr >= 0 && (o->before.sig_sum != o->at_exec.sig_sum || o->before.sig_sum != o->after.sig_sum))
+            return bad("thread-signal-mask-changed", "call #" + std::to_string(cv.opi) + " (thread " + std::to_string(o->thr) + "): the signal mask or the dispositions the thread had when it called exec are different " + (o->before.sig_sum != o->at_exec.sig_sum ? "when the real exec is entered" : "after the call"));
         if (cv.op->faults.empty()) {
             RecJudge j = judge_record(cv, r);
             if (j.v.violated) { j.v.cls = "thread-" + j.v.cls; return j.v; }
